@@ -225,7 +225,7 @@ def r17a(ck, fb):
     ck.require(tp.op_tainted(s.args[1]) and tm.op_tainted(s.args[2]), 'R17a', 'block:path+method', s.where(), 'the permission check is not applied to the request path and method')
     mr = ck.body(UP + 'UserRole::match_url_by_roles', 'R17a')
     if mr:
-        ok = len(mr.calls(re.escape(UP + 'UserRole::new') + '$')) == 1 and len(mr.calls(re.escape(UP + 'UserRole::match_url') + '$')) == 1
+        ok = len(util.region_calls(fb, mr, re.escape(UP + 'UserRole::new') + '$', depth=0)) == 1 and len(util.region_calls(fb, mr, re.escape(UP + 'UserRole::match_url') + '$', depth=0)) == 1
         ck.require(ok, 'R17a', 'match_url_by_roles:shape', mr.where(), 'match_url_by_roles does not evaluate UserRole::new(role).match_url per role')
     for nm in ('PathResource::match_url', 'GroupResource::match_url', 'UserRole::match_url'):
         ck.body(UP + nm, 'R17a')
